@@ -317,3 +317,57 @@ Fixpoint outs_eqb (a b : list out) : bool :=
 Definition C12_check (init : list N) (ops : list op) (mem osf : list out) : bool :=
   let k := scope_from (pinit init) ops in
   outs_eqb (firstn k mem) (firstn k osf).
+
+(* ---------- two handles on one blob ----------
+   memory.Store.Create (store.go:67-91) and memory.Store.Open (store.go:123-139) both return
+   newFile(b.data, &b.sliceMu): the handles share the slice through the pointer `data` and keep
+   their own offsets.  The operating-system counterpart is one file opened twice. *)
+Record mst2 := mkm2 { m2_buf : slice; m2_off0 : Z; m2_off1 : Z }.
+Definition minit2 (cap : nat) : mst2 := mkm2 (make_slice 0 cap) 0 0.
+
+Definition mstep2 (fx : bool) (s : mst2) (ho : bool * op) : mst2 * out :=
+  let '(h, o) := ho in
+  let '(m', r) := mstep fx (mkm (m2_buf s) (if h then m2_off1 s else m2_off0 s)) o in
+  (if h then mkm2 (m_buf m') (m2_off0 s) (m_off m') else mkm2 (m_buf m') (m_off m') (m2_off1 s), r).
+
+Fixpoint mrun2 (fx : bool) (s : mst2) (ops : list (bool * op)) : mst2 * list out :=
+  match ops with
+  | [] => (s, [])
+  | o :: t => let '(s1, r) := mstep2 fx s o in
+              let '(s2, rs) := mrun2 fx s1 t in (s2, r :: rs)
+  end.
+
+Record pst2 := mkp2 { f2_data : list N; f2_pos0 : Z; f2_pos1 : Z }.
+Definition pinit2 : pst2 := mkp2 [] 0 0.
+
+Definition pstep2 (s : pst2) (ho : bool * op) : pst2 * out :=
+  let '(h, o) := ho in
+  let '(p', r) := pstep (mkp (f2_data s) (if h then f2_pos1 s else f2_pos0 s)) o in
+  (if h then mkp2 (f_data p') (f2_pos0 s) (f_pos p') else mkp2 (f_data p') (f_pos p') (f2_pos1 s), r).
+
+Fixpoint prun2 (s : pst2) (ops : list (bool * op)) : pst2 * list out :=
+  match ops with
+  | [] => (s, [])
+  | o :: t => let '(s1, r) := pstep2 s o in
+              let '(s2, rs) := prun2 s1 t in (s2, r :: rs)
+  end.
+
+Definition op_in_extent2 (s : pst2) (ho : bool * op) : bool :=
+  op_in_extent (mkp (f2_data s) (if fst ho then f2_pos1 s else f2_pos0 s)) (snd ho).
+
+Fixpoint in_extent2_from (s : pst2) (ops : list (bool * op)) : bool :=
+  match ops with
+  | [] => true
+  | o :: t => op_in_extent2 s o && in_extent2_from (fst (pstep2 s o)) t
+  end.
+Definition in_extent2 (ops : list (bool * op)) : bool := in_extent2_from pinit2 ops.
+
+Fixpoint scope2_from (s : pst2) (ops : list (bool * op)) : nat :=
+  match ops with
+  | [] => 0
+  | o :: t => if op_in_extent2 s o then S (scope2_from (fst (pstep2 s o)) t) else 0
+  end.
+
+Definition C12_check2 (ops : list (bool * op)) (mem osf : list out) : bool :=
+  let k := scope2_from pinit2 ops in
+  outs_eqb (firstn k mem) (firstn k osf).
